@@ -18,6 +18,11 @@
 //!        a multiset with members / declarations sorted by name, every number by exact value
 //!        (`u64`: same decimal text; `f64`: the text parses to the same bit pattern).
 //!
+//! Every case is formatted twice: by a fresh formatter and by a long-lived formatter instance of the same
+//! configuration (cases come in runs of one configuration); both outputs face the same oracles and the same model
+//! prediction; a failure that needs earlier entries is reported as `<key>:after-history` with the case text
+//! `<earlier case> ;; <case>`. Boundary streams add large entries (many dimension sets / items / dimensions / bytes).
+//!
 //! Whether a formatter validates depends on how it was built and on the build profile
 //! (`EmfCfg::validates()`); the check runs this binary in the dev and in the release profile.
 
@@ -35,23 +40,41 @@ use verif_harness::*;
 struct Case {
     cfg: EmfCfg,
     entry: GenEntry,
+    /// entries the SAME formatter instance formatted before this one (oldest first); empty = fresh formatter
+    history: Vec<GenEntry>,
 }
 
 impl Case {
+    fn new(cfg: EmfCfg, entry: GenEntry) -> Case {
+        Case { cfg, entry, history: vec![] }
+    }
+    /// `<cfg> | <entry>`; with a history `<cfg> | <earlier entry> ;; … ;; <cfg> | <entry>`
     fn encode(&self) -> String {
-        format!("{} | {}", self.cfg.encode(), self.entry.encode())
+        let c = self.cfg.encode();
+        let mut parts: Vec<String> = self.history.iter().map(|h| format!("{c} | {}", h.encode())).collect();
+        parts.push(format!("{c} | {}", self.entry.encode()));
+        parts.join(" ;; ")
     }
     fn decode(s: &str) -> Option<Case> {
-        let (c, e) = s.split_once(" | ")?;
-        let cfg = EmfCfg::decode(c.trim())?;
-        if cfg.namespaces.is_empty() || cfg.default_dims.is_empty() {
-            return None;
+        let mut cfg = None;
+        let mut entries = vec![];
+        for part in s.split(" ;; ") {
+            let (c, e) = part.split_once(" | ")?;
+            let c = EmfCfg::decode(c.trim())?;
+            if c.namespaces.is_empty() || c.default_dims.is_empty() {
+                return None;
+            }
+            c.build_fmt()?;
+            // one formatter instance: the configuration of the last part counts
+            cfg = Some(c);
+            entries.push(GenEntry::decode(e)?);
         }
-        cfg.build_fmt()?;
-        Some(Case { cfg, entry: GenEntry::decode(e)? })
+        let entry = entries.pop()?;
+        Some(Case { cfg: cfg?, entry, history: entries })
     }
+    /// the model is a function of the configuration and the entry alone
     fn request(&self) -> String {
-        format!("{} {}", self.cfg.validates() as u8, self.encode())
+        format!("{} {} | {}", self.cfg.validates() as u8, self.cfg.encode(), self.entry.encode())
     }
 }
 
@@ -446,11 +469,8 @@ fn classify_error(msg: &str, entry: &GenEntry) -> String {
     format!("unknown:{}", hex(msg.as_bytes()))
 }
 
-fn run_with(cfg: &EmfCfg, entry: &GenEntry) -> (Outcome, Vec<u8>) {
-    let mut out = Vec::new();
-    let Some(mut f) = cfg.build_fmt() else { return (Outcome::Panic("unsupported multiplicity".into()), out) };
-    let r = catch(|| f.format(entry, &mut out));
-    let o = match r {
+fn outcome_of(r: Result<Result<(), IoStreamError>, String>, entry: &GenEntry) -> Outcome {
+    match r {
         Ok(Ok(())) => Outcome::Ok,
         Ok(Err(IoStreamError::Validation(e))) => {
             let mut kinds: Vec<String> =
@@ -460,8 +480,27 @@ fn run_with(cfg: &EmfCfg, entry: &GenEntry) -> (Outcome, Vec<u8>) {
         }
         Ok(Err(IoStreamError::Io(e))) => Outcome::Io(format!("{:?}", e.kind())),
         Err(p) => Outcome::Panic(p),
-    };
-    (o, out)
+    }
+}
+
+/// formats `entry` with an existing formatter instance
+fn run_on(f: &mut BuiltFmt, entry: &GenEntry) -> (Outcome, Vec<u8>) {
+    let mut out = Vec::new();
+    let r = catch(|| f.format(entry, &mut out));
+    (outcome_of(r, entry), out)
+}
+
+/// fresh formatter, the history first (its output is dropped), then the entry
+fn run_with_history(cfg: &EmfCfg, history: &[GenEntry], entry: &GenEntry) -> (Outcome, Vec<u8>) {
+    let Some(mut f) = cfg.build_fmt() else { return (Outcome::Panic("unsupported multiplicity".into()), vec![]) };
+    for h in history {
+        let _ = run_on(&mut f, h);
+    }
+    run_on(&mut f, entry)
+}
+
+fn run_with(cfg: &EmfCfg, entry: &GenEntry) -> (Outcome, Vec<u8>) {
+    run_with_history(cfg, &[], entry)
 }
 
 fn lines_of(bytes: &[u8]) -> Vec<Vec<u8>> {
@@ -477,7 +516,11 @@ struct ImplRun {
 }
 
 fn run_impl(c: &Case) -> ImplRun {
-    let (outcome, bytes) = run_with(&c.cfg, &c.entry);
+    let (outcome, bytes) = run_with_history(&c.cfg, &c.history, &c.entry);
+    parse_run(outcome, bytes)
+}
+
+fn parse_run(outcome: Outcome, bytes: Vec<u8>) -> ImplRun {
     let mut trees = Ok(vec![]);
     for l in lines_of(&bytes) {
         let r = (|| {
@@ -1654,11 +1697,65 @@ fn inject(rng: &mut Rng, cfg: &EmfCfg, e: &mut GenEntry, kind: u64) -> &'static 
 
 const N_INJECT: u64 = 14;
 
-fn gen_case(rng: &mut Rng, property: &str, rep: &mut Report) -> Case {
+/// Cases come in runs of one formatter configuration (so that the long-lived instance of that
+/// configuration sees rejected, split, entry-dimension and plain entries one after another).
+#[derive(Default)]
+struct RunState {
+    cfg: Option<EmfCfg>,
+    left: usize,
+    /// the previous entry of the run before any defect was injected
+    prev: Option<GenEntry>,
+}
+
+/// a variant of the previous (valid) entry: the same names, entry dimensions regrouped / added / dropped
+fn vary_entry(rng: &mut Rng, cfg: &EmfCfg, prev: &GenEntry) -> GenEntry {
+    let mut e = prev.clone();
+    let pos = e.items.iter().position(|it| matches!(it, GItem::EntryDims(..)));
+    match pos {
+        Some(i) => {
+            let flat: Vec<String> = match &e.items[i] {
+                GItem::EntryDims(sets, _) => sets.iter().flatten().cloned().collect(),
+                _ => vec![],
+            };
+            let sets: Vec<Vec<String>> = match rng.below(5) {
+                0 => vec![flat.clone()],
+                1 if !flat.is_empty() => flat.iter().map(|d| vec![d.clone()]).collect(),
+                2 => vec![flat.clone(), vec![]],
+                3 => vec![vec![], flat.clone()],
+                _ => {
+                    let cut = rng.range(0, flat.len() as u64) as usize;
+                    vec![flat[..cut].to_vec(), flat[cut..].to_vec()]
+                }
+            };
+            e.items[i] = GItem::entry_dims(sets);
+        }
+        None => {
+            // the identity entry-dimension config (one empty set) before anything else
+            let _ = cfg;
+            e.items.insert(0, GItem::entry_dims(vec![vec![]]));
+        }
+    }
+    e
+}
+
+fn gen_case(rng: &mut Rng, property: &str, rep: &mut Report, run: &mut RunState) -> Case {
     let c08 = property == "C08";
-    let cfg = gen_cfg(rng, c08);
+    if run.left == 0 || run.cfg.is_none() {
+        run.cfg = Some(gen_cfg(rng, c08));
+        run.left = *rng.pick(&[1usize, 1, 2, 3, 4, 6, 8]);
+        run.prev = None;
+    }
+    run.left -= 1;
+    let cfg = run.cfg.clone().unwrap();
     let nasty = rng.chance(1, 5);
-    let mut entry = gen_valid_entry(rng, &cfg, nasty);
+    let mut entry = match &run.prev {
+        Some(p) if rng.chance(1, 4) => {
+            rep.bump("run:variant-of-previous");
+            if rng.chance(1, 3) { p.clone() } else { vary_entry(rng, &cfg, p) }
+        }
+        _ => gen_valid_entry(rng, &cfg, nasty),
+    };
+    run.prev = Some(entry.clone());
     let roll = rng.below(100);
     let n_defects = if c08 {
         if roll < 35 { 0 } else if roll < 80 { 1 } else { 2 }
@@ -1675,7 +1772,394 @@ fn gen_case(rng: &mut Rng, property: &str, rep: &mut Report) -> Case {
     if n_defects == 0 {
         rep.bump("injected:none");
     }
-    Case { cfg, entry }
+    Case::new(cfg, entry)
+}
+
+// ------------------------------------------------------------------------------------------------
+// boundary streams: sizes around every boundary an index / length / capacity representation could have
+// (bit sets and masks, inline small vectors, hash-map growth, buffer capacities), with each defect injected
+// at the FIRST, the LAST and a random position.
+
+const BOUNDS: &[usize] = &[1, 2, 3, 4, 7, 8, 9, 15, 16, 17, 31, 32, 33, 63, 64, 65, 127, 128, 129, 255, 256, 257];
+const LEN_BOUNDS: &[usize] = &[1, 2, 7, 8, 15, 16, 17, 22, 23, 24, 31, 32, 33, 63, 64, 65, 127, 128, 129, 255, 256, 257, 1023, 1024, 1025, 4095, 4096, 4097];
+
+#[derive(Clone, Copy, Debug, PartialEq)]
+enum Pos {
+    First,
+    Last,
+    Random,
+}
+
+fn pick_index(rng: &mut Rng, pos: Pos, n: usize) -> usize {
+    match pos {
+        Pos::First => 0,
+        Pos::Last => n - 1,
+        Pos::Random => rng.below(n as u64) as usize,
+    }
+}
+
+fn plain_cfg(rng: &mut Rng, default_dims: Vec<Vec<String>>) -> EmfCfg {
+    EmfCfg {
+        how: *rng.pick(&['A', 'A', 'B', 'F']),
+        namespaces: vec!["Ns".into()],
+        default_dims,
+        log_group: None,
+        allow_ignored: false,
+        extra_directive: false,
+        multiplicity: if rng.chance(1, 4) { Some(4) } else { None },
+    }
+}
+
+fn one_obs(rng: &mut Rng) -> GVal {
+    GVal::Metric { obs: vec![Observation::Unsigned(rng.below(1000))], unit: Unit::None, dims: vec![], flags: GFlags::None }
+}
+
+fn metric_with(rng: &mut Rng, dims: Vec<(String, String)>) -> GVal {
+    GVal::Metric { obs: vec![Observation::Unsigned(rng.below(1000))], unit: Unit::None, dims, flags: GFlags::None }
+}
+
+/// `k` distinct per-metric dimension sets in one split entry; defect `d` at set index `j`
+fn stream_sets(rng: &mut Rng, k: usize, pos: Pos, d: u64) -> (Case, String) {
+    let dd = if rng.chance(1, 3) { vec![vec!["AZ".to_string()]] } else { vec![vec![]] };
+    let cfg = plain_cfg(rng, dd);
+    let same_name = rng.chance(1, 2);
+    let flavor = rng.below(3);
+    let dims_of = |i: usize| -> Vec<(String, String)> {
+        match flavor {
+            0 => vec![("Dim".to_string(), format!("v{i}"))],
+            1 => vec![(format!("K{i}"), "v".to_string())],
+            _ => vec![("Dim".to_string(), format!("v{}", i / 7)), ("Zone".to_string(), format!("z{}", i % 7))],
+        }
+    };
+    let name_of = |i: usize| -> String { if same_name { "Latency".to_string() } else { format!("M{i}") } };
+    let mut items = vec![GItem::Timestamp(1_700_000_000_000_000), GItem::allow_split()];
+    for dset in &cfg.default_dims {
+        for dn in dset {
+            items.push(GItem::Value(dn.clone(), GVal::Str("az-1".into())));
+        }
+    }
+    items.push(GItem::Value("Op".into(), GVal::Str("Get".into())));
+    if rng.chance(1, 2) {
+        items.push(GItem::Value("Global".into(), one_obs(rng)));
+    }
+    let base = items.len();
+    for i in 0..k {
+        let v = metric_with(rng, dims_of(i));
+        items.push(GItem::Value(name_of(i), v));
+    }
+    let j = pick_index(rng, pos, k);
+    let at_end = rng.chance(1, 2);
+    let label = match d {
+        0 => "valid",
+        1 => {
+            // the same metric again in set j (at the end of the entry, or right after the first one)
+            let v = metric_with(rng, dims_of(j));
+            if at_end { items.push(GItem::Value(name_of(j), v)) } else { items.insert(base + j + 1, GItem::Value(name_of(j), v)) }
+            "dup-metric-in-set"
+        }
+        2 => {
+            let mut dm = dims_of(j);
+            dm.reverse();
+            let v = metric_with(rng, dm);
+            items.push(GItem::Value(name_of(j), v));
+            "dup-metric-in-set-permuted"
+        }
+        3 => {
+            let it = GItem::Value(name_of(j), GVal::Str("s".into()));
+            if at_end { items.push(it) } else { items.insert(base, it) }
+            "string-vs-metric-name"
+        }
+        4 => {
+            // near miss: the name of set j once more, in a brand-new set
+            let v = metric_with(rng, vec![("Fresh".to_string(), "f".to_string())]);
+            items.push(GItem::Value(name_of(j), v));
+            "same-name-new-set"
+        }
+        5 => {
+            items.insert(base + j + 1, GItem::entry_dims(vec![vec![]]));
+            "entry-dimensions-late"
+        }
+        6 => {
+            // the split config only after the metric of set j
+            items.remove(1);
+            items.insert(base + j, GItem::allow_split());
+            "split-config-after-set"
+        }
+        7 => {
+            // a second metric with a distinct name in set j (valid), then that name again in set j
+            let v = metric_with(rng, dims_of(j));
+            items.push(GItem::Value("Extra".into(), v));
+            let v = metric_with(rng, dims_of(j));
+            items.push(GItem::Value("Extra".into(), v));
+            "dup-second-metric-in-set"
+        }
+        _ => {
+            // the global metric's name again under set j is fine; again globally is a duplicate
+            let v = metric_with(rng, dims_of(j));
+            items.push(GItem::Value("Global2".into(), v));
+            items.push(GItem::Value("Global2".into(), one_obs(rng)));
+            items.push(GItem::Value("Global2".into(), one_obs(rng)));
+            "dup-global-after-sets"
+        }
+    };
+    (Case::new(cfg, GenEntry { items, sample_group: vec![] }), format!("sets:{label}"))
+}
+
+/// `n` values in one entry; defect at value index `j`
+fn stream_items(rng: &mut Rng, n: usize, pos: Pos, d: u64) -> (Case, String) {
+    let cfg = plain_cfg(rng, vec![vec![]]);
+    let mut items = vec![GItem::Timestamp(1)];
+    let is_str: Vec<bool> = (0..n).map(|_| rng.chance(1, 2)).collect();
+    for i in 0..n {
+        let v = if is_str[i] { GVal::Str(format!("s{i}")) } else { one_obs(rng) };
+        items.push(GItem::Value(format!("F{i}"), v));
+    }
+    let j = pick_index(rng, pos, n);
+    let at = if rng.chance(1, 2) { items.len() } else { 1 };
+    let label = match d {
+        0 => "valid",
+        1 => {
+            items.insert(at, GItem::Value(format!("F{j}"), GVal::Str("again".into())));
+            "dup-as-string"
+        }
+        2 => {
+            let v = one_obs(rng);
+            items.insert(at, GItem::Value(format!("F{j}"), v));
+            "dup-as-metric"
+        }
+        3 => {
+            items.insert(1 + j, GItem::Value(String::new(), GVal::Str("x".into())));
+            "empty-name"
+        }
+        4 => {
+            items.insert(1 + j, GItem::Timestamp(2));
+            "second-timestamp"
+        }
+        _ => {
+            items.insert(1 + j, GItem::Value("_aws".into(), GVal::Nothing));
+            "reserved-name"
+        }
+    };
+    (Case::new(cfg, GenEntry { items, sample_group: vec![] }), format!("items:{label}"))
+}
+
+/// per-metric dimension lists of length `n`
+fn stream_dims(rng: &mut Rng, n: usize, pos: Pos, d: u64) -> (Case, String) {
+    let cfg = plain_cfg(rng, vec![vec![]]);
+    let dims: Vec<(String, String)> = (0..n).map(|i| (format!("K{i:03}"), format!("v{i}"))).collect();
+    let mut items = vec![GItem::Timestamp(1), GItem::allow_split(), GItem::Value("Op".into(), GVal::Str("Get".into()))];
+    let mut shuffled = dims.clone();
+    rng.shuffle(&mut shuffled);
+    let v = metric_with(rng, shuffled);
+    items.push(GItem::Value("M".into(), v));
+    let j = pick_index(rng, pos, n);
+    let label = match d {
+        0 => "valid",
+        1 => {
+            // the same set (given in another order): duplicate
+            let mut dm = dims.clone();
+            dm.reverse();
+            let v = metric_with(rng, dm);
+            items.push(GItem::Value("M".into(), v));
+            "dup-metric-same-set-other-order"
+        }
+        2 => {
+            // differs only in the value of dimension j: another set, valid
+            let mut dm = dims.clone();
+            dm[j].1.push('x');
+            let v = metric_with(rng, dm);
+            items.push(GItem::Value("M".into(), v));
+            "near-miss-one-value-differs"
+        }
+        3 => {
+            // differs only in the key of dimension j: another set, valid
+            let mut dm = dims.clone();
+            dm[j].0.push('x');
+            let v = metric_with(rng, dm);
+            items.push(GItem::Value("M".into(), v));
+            "near-miss-one-key-differs"
+        }
+        _ => {
+            // a prefix of the dimension list: another set, valid; then the full set again: duplicate
+            let v = metric_with(rng, dims[..n - 1].to_vec());
+            if n > 1 {
+                items.push(GItem::Value("M".into(), v));
+            }
+            let v = metric_with(rng, dims.clone());
+            items.push(GItem::Value("M".into(), v));
+            "prefix-set-then-dup"
+        }
+    };
+    (Case::new(cfg, GenEntry { items, sample_group: vec![] }), format!("dims:{label}"))
+}
+
+/// names of `len` bytes that share all but one byte
+fn stream_namelen(rng: &mut Rng, len: usize, pos: Pos, d: u64) -> (Case, String) {
+    let mk = |j: usize, c: char| -> String { (0..len).map(|i| if i == j { c } else { 'a' }).collect() };
+    let j = pick_index(rng, pos, len);
+    let declared = d >= 4;
+    let cfg = plain_cfg(rng, if declared { vec![vec![mk(j, 'x')]] } else { vec![vec![]] });
+    let mut items = vec![GItem::Timestamp(1)];
+    let label = match d {
+        0 => {
+            items.push(GItem::Value(mk(j, 'x'), GVal::Str("1".into())));
+            items.push(GItem::Value(mk(j, 'y'), one_obs(rng)));
+            "valid-differ-in-one-byte"
+        }
+        1 => {
+            items.push(GItem::Value(mk(j, 'x'), GVal::Str("1".into())));
+            items.push(GItem::Value(mk(j, 'x'), GVal::Str("2".into())));
+            "dup-string"
+        }
+        2 => {
+            items.push(GItem::Value(mk(j, 'x'), one_obs(rng)));
+            items.push(GItem::Value(mk(j, 'y'), one_obs(rng)));
+            items.push(GItem::Value(mk(j, 'x'), one_obs(rng)));
+            "dup-metric"
+        }
+        3 => {
+            items.push(GItem::Value(mk(j, 'x'), one_obs(rng)));
+            items.push(GItem::Value(mk(j, 'x'), GVal::Str("2".into())));
+            "metric-then-string"
+        }
+        4 => {
+            items.push(GItem::Value(mk(j, 'x'), GVal::Str("dim".into())));
+            items.push(GItem::Value("M".into(), one_obs(rng)));
+            "valid-long-dimension"
+        }
+        5 => {
+            items.push(GItem::Value(mk(j, 'y'), GVal::Str("dim".into())));
+            "missing-dimension-one-byte-off"
+        }
+        _ => {
+            items.push(GItem::Value(mk(j, 'x'), GVal::Str("dim".into())));
+            items.push(GItem::Value(mk(j, 'x'), one_obs(rng)));
+            "metric-under-long-dimension"
+        }
+    };
+    (Case::new(cfg, GenEntry { items, sample_group: vec![] }), format!("namelen:{label}"))
+}
+
+/// `n` declared dimensions (default sets and entry sets); defect at dimension `j`
+fn stream_declared(rng: &mut Rng, n: usize, pos: Pos, d: u64) -> (Case, String) {
+    let names: Vec<String> = (0..n).map(|i| format!("D{i}")).collect();
+    let shape = rng.below(3);
+    let (default_dims, entry_dims): (Vec<Vec<String>>, Option<Vec<Vec<String>>>) = match shape {
+        0 => (vec![names.clone()], None),
+        1 => (names.iter().map(|x| vec![x.clone()]).collect(), None),
+        _ => (vec![vec![]], Some(names.chunks(3).map(|c| c.to_vec()).collect())),
+    };
+    let mut cfg = plain_cfg(rng, default_dims);
+    if n > 40 && shape == 1 {
+        cfg.multiplicity = None;
+    }
+    let mut items = vec![GItem::Timestamp(1)];
+    if let Some(s) = entry_dims {
+        items.push(GItem::entry_dims(s));
+    }
+    for x in &names {
+        items.push(GItem::Value(x.clone(), GVal::Str("v".into())));
+    }
+    items.push(GItem::Value("M".into(), one_obs(rng)));
+    let j = pick_index(rng, pos, n);
+    let label = match d {
+        0 => "valid",
+        1 => {
+            items.retain(|it| !matches!(it, GItem::Value(x, GVal::Str(_)) if *x == names[j]));
+            "missing-dimension"
+        }
+        2 => {
+            items.push(GItem::Value(names[j].clone(), one_obs(rng)));
+            "metric-under-dimension"
+        }
+        3 => {
+            for it in items.iter_mut() {
+                if matches!(it, GItem::Value(x, GVal::Str(_)) if *x == names[j]) {
+                    *it = GItem::Value(names[j].clone(), one_obs(rng));
+                }
+            }
+            "metric-replaces-dimension"
+        }
+        _ => {
+            items.push(GItem::Value(names[j].clone(), GVal::Str("again".into())));
+            "dup-dimension-string"
+        }
+    };
+    (Case::new(cfg, GenEntry { items, sample_group: vec![] }), format!("declared:{label}"))
+}
+
+/// `n` namespaces (directive replication), with a split record, an extra directive and a log group
+fn stream_namespaces(rng: &mut Rng, n: usize, _pos: Pos, d: u64) -> (Case, String) {
+    let cfg = EmfCfg {
+        how: *rng.pick(&['B', 'F', 'S']),
+        namespaces: (0..n).map(|i| format!("Ns{i}")).collect(),
+        default_dims: vec![vec!["AZ".into()], vec![]],
+        log_group: if rng.chance(1, 2) { Some("Group".into()) } else { None },
+        allow_ignored: false,
+        extra_directive: rng.chance(1, 2),
+        multiplicity: if rng.chance(1, 3) { Some(2) } else { None },
+    };
+    let mut items = vec![
+        GItem::Timestamp(1_234_567),
+        GItem::allow_split(),
+        GItem::Value("AZ".into(), GVal::Str("az".into())),
+        GItem::Value("G".into(), GVal::Metric { obs: gen_obs_list(rng), unit: gen_unit(rng), dims: vec![], flags: gen_flags(rng) }),
+        GItem::Value("S".into(), GVal::Metric { obs: gen_obs_list(rng), unit: gen_unit(rng), dims: vec![("Dim".into(), "v".into())], flags: gen_flags(rng) }),
+    ];
+    let label = match d {
+        0 | 1 => "valid",
+        2 => {
+            items.push(GItem::Value("S".into(), metric_with(rng, vec![("Dim".into(), "v".into())])));
+            "dup-metric-in-set"
+        }
+        _ => {
+            items.push(GItem::Value("G".into(), GVal::Str("x".into())));
+            "string-vs-metric-name"
+        }
+    };
+    (Case::new(cfg, GenEntry { items, sample_group: vec![] }), format!("namespaces:{label}"))
+}
+
+/// the boundary cases of a run: (case, stream label, size)
+fn boundary_cases(rng: &mut Rng, property: &str, thorough: bool) -> Vec<(Case, String, usize)> {
+    type Stream = fn(&mut Rng, usize, Pos, u64) -> (Case, String);
+    // (generator, number of defect kinds, sizes, extra random sizes up to, how many random sizes)
+    let streams: Vec<(Stream, u64, Vec<usize>, usize, usize)> = vec![
+        (stream_sets, 9, BOUNDS.to_vec(), 600, 3),
+        (stream_items, 6, BOUNDS.to_vec(), 1500, 2),
+        (stream_dims, 5, BOUNDS[..16].to_vec(), 80, 1),
+        (stream_namelen, 7, LEN_BOUNDS.to_vec(), 3000, 1),
+        (stream_declared, 5, BOUNDS[..19].to_vec(), 200, 1),
+        (stream_namespaces, 4, BOUNDS[..13].to_vec(), 40, 1),
+    ];
+    let c08 = property == "C08";
+    let mut out = vec![];
+    for (sgen, kinds, mut sizes, upto, n_random) in streams {
+        for _ in 0..(if thorough { 4 * n_random } else { n_random }) {
+            sizes.push(rng.range(1, upto as u64) as usize);
+        }
+        for size in sizes {
+            for pos in [Pos::First, Pos::Last, Pos::Random] {
+                // quick: per (size, position) the stream's plain duplicate, one more defect kind and one random kind (C08) /
+                // mostly valid entries (C03); thorough: every kind
+                let ds: Vec<u64> = if thorough && c08 {
+                    (0..kinds).collect()
+                } else if c08 {
+                    // kind 1 of every stream is its plain duplicate: always present
+                    vec![1, 1 + rng.below(kinds - 1), rng.below(kinds)]
+                } else if pos == Pos::First {
+                    vec![0]
+                } else {
+                    vec![rng.below(kinds)]
+                };
+                for d in ds {
+                    let (case, label) = sgen(rng, size, pos, d);
+                    out.push((case, label, size));
+                }
+            }
+        }
+    }
+    out
 }
 
 // ------------------------------------------------------------------------------------------------
@@ -1685,6 +2169,61 @@ struct Evaluated {
     enc: String,
     request: String,
     canon: ImplCanon,
+    /// when the long-lived instance produced something else than the fresh formatter:
+    /// (the case with its history, what the instance produced)
+    hist: Option<(String, ImplCanon)>,
+}
+
+/// One long-lived real formatter per configuration. An instance is replaced after
+/// `INSTANCE_LIFETIME` entries so that its whole history is known (and replayable).
+const INSTANCE_LIFETIME: usize = 16;
+const MAX_INSTANCES: usize = 256;
+
+struct Instance {
+    fmt: BuiltFmt,
+    history: Vec<GenEntry>,
+}
+
+#[derive(Default)]
+struct Instances {
+    map: std::collections::HashMap<String, Instance>,
+}
+
+fn same_output(a: (&Outcome, &[u8]), b: (&Outcome, &[u8]), clock: bool) -> bool {
+    if a.0 != b.0 {
+        return false;
+    }
+    if clock { sorted_lines(&mask_timestamp(a.1)) == sorted_lines(&mask_timestamp(b.1)) } else { sorted_lines(a.1) == sorted_lines(b.1) }
+}
+
+/// Formats the case's entry a second time, through the long-lived instance of its configuration.
+/// Returns the case with the instance's history and the run when it differs from the fresh run.
+fn run_long_lived(c: &Case, fresh: &ImplRun, insts: &mut Instances, rep: &mut Report) -> Option<(Case, ImplRun)> {
+    if !c.history.is_empty() {
+        return None; // a replayed history case: `run_impl` already went through the history
+    }
+    let key = c.cfg.encode();
+    if !insts.map.contains_key(&key) {
+        if insts.map.len() >= MAX_INSTANCES {
+            insts.map.clear();
+        }
+        insts.map.insert(key.clone(), Instance { fmt: c.cfg.build_fmt()?, history: vec![] });
+    }
+    let inst = insts.map.get_mut(&key)?;
+    let (o, b) = run_on(&mut inst.fmt, &c.entry);
+    rep.bump(&format!("long-lived:history-length:{}", match inst.history.len() { 0 => "0", 1 => "1", 2..=4 => "2-4", _ => "5+" }));
+    let clock = !c.entry.items.iter().any(|it| matches!(it, GItem::Timestamp(_)));
+    let res = if same_output((&fresh.outcome, &fresh.bytes), (&o, &b), clock) {
+        None
+    } else {
+        rep.bump("long-lived:differs-from-fresh");
+        Some((Case { history: inst.history.clone(), ..c.clone() }, parse_run(o, b)))
+    };
+    inst.history.push(c.entry.clone());
+    if inst.history.len() >= INSTANCE_LIFETIME {
+        insts.map.remove(&key);
+    }
+    res
 }
 
 fn oracle_failure_key(c: &Case, property: &str) -> Option<(String, String, String)> {
@@ -1701,10 +2240,21 @@ fn oracle_failure_key(c: &Case, property: &str) -> Option<(String, String, Strin
 
 fn shrink_case(c: &Case, property: &str, key: &str) -> Case {
     let fails = |cc: &Case| oracle_failure_key(cc, property).map(|(k, _, _)| k == key).unwrap_or(false);
-    let items = shrink_list(&c.entry.items, |items| {
-        fails(&Case { cfg: c.cfg.clone(), entry: GenEntry { items: items.to_vec(), sample_group: vec![] } })
+    // the history first: fewer earlier entries, then fewer items in each of them
+    let history = shrink_list(&c.history, |h| fails(&Case { history: h.to_vec(), ..c.clone() }));
+    let mut cur = Case { history, ..c.clone() };
+    for i in 0..cur.history.len() {
+        let items = shrink_list(&cur.history[i].items, |items| {
+            let mut cand = cur.clone();
+            cand.history[i].items = items.to_vec();
+            fails(&cand)
+        });
+        cur.history[i].items = items;
+    }
+    let items = shrink_list(&cur.entry.items, |items| {
+        fails(&Case { entry: GenEntry { items: items.to_vec(), sample_group: vec![] }, ..cur.clone() })
     });
-    let mut cur = Case { cfg: c.cfg.clone(), entry: GenEntry { items, sample_group: vec![] } };
+    cur.entry.items = items;
     // simplify the configuration while the failure persists
     let mut tries: Vec<Box<dyn Fn(&mut EmfCfg)>> = vec![
         Box::new(|c| c.namespaces.truncate(1)),
@@ -1724,7 +2274,7 @@ fn shrink_case(c: &Case, property: &str, key: &str) -> Case {
     }
     // items again: a simpler configuration may have made more of them removable
     let items = shrink_list(&cur.entry.items, |items| {
-        fails(&Case { cfg: cur.cfg.clone(), entry: GenEntry { items: items.to_vec(), sample_group: vec![] } })
+        fails(&Case { entry: GenEntry { items: items.to_vec(), sample_group: vec![] }, ..cur.clone() })
     });
     cur.entry.items = items;
     // simplify values: metrics to a single small observation, strings to "s"
@@ -1747,7 +2297,7 @@ fn shrink_case(c: &Case, property: &str, key: &str) -> Case {
     cur
 }
 
-fn evaluate(c: &Case, property: &str, rep: &mut Report, sample: bool) -> Evaluated {
+fn evaluate(c: &Case, property: &str, rep: &mut Report, sample: bool, insts: &mut Instances) -> Evaluated {
     let enc = c.encode();
     let run = run_impl(c);
     let d = defects(&c.cfg, &c.entry);
@@ -1804,7 +2354,8 @@ fn evaluate(c: &Case, property: &str, rep: &mut Report, sample: bool) -> Evaluat
             // shrink and record the first few of every class only (shrinking re-runs the implementation many times)
             if rep.oracle_failures.iter().filter(|f| f.key == key).count() >= 3 {
                 rep.case(&enc, nontrivial);
-                return Evaluated { request: c.request(), enc, canon: impl_canon(&run) };
+                let _ = run_long_lived(c, &run, insts, rep);
+                return Evaluated { request: c.request(), enc, canon: impl_canon(&run), hist: None };
             }
             let small = shrink_case(c, property, key);
             let r2 = run_impl(&small);
@@ -1833,21 +2384,72 @@ fn evaluate(c: &Case, property: &str, rep: &mut Report, sample: bool) -> Evaluat
     if sample {
         rep.sample(json!({"case": enc, "impl": run.outcome.render(), "output": String::from_utf8_lossy(&run.bytes), "defects": d.iter().collect::<Vec<_>>()}));
     }
-    Evaluated { request: c.request(), enc, canon: impl_canon(&run) }
+    // the same entry through the long-lived instance of this configuration: same oracles, same model prediction
+    let mut hist = None;
+    if let Some((hc, hrun)) = run_long_lived(c, &run, insts, rep) {
+        let fresh_key: Option<String> = if property == "C08" {
+            c08_oracle(c, &run).map(|(k, _)| k.to_string())
+        } else if c03_domain(c).is_none() {
+            c03_oracle(c, &run).map(|_| "emf:content".to_string())
+        } else {
+            None
+        };
+        let hist_fail: Option<(String, String)> = if property == "C08" {
+            c08_oracle(&hc, &hrun).map(|(k, w)| (k.to_string(), w))
+        } else if c03_domain(&hc).is_none() {
+            c03_oracle(&hc, &hrun).map(|w| ("emf:content".to_string(), w))
+        } else {
+            None
+        };
+        if let Some((key, what)) = hist_fail {
+            if fresh_key.as_deref() != Some(key.as_str()) {
+                let full = format!("{key}:after-history");
+                rep.bump(&format!("oracle-failure:{full}"));
+                if rep.oracle_failures.iter().filter(|f| f.key == full).count() < 3 {
+                    let small = shrink_case(&hc, property, &key);
+                    let r2 = run_impl(&small);
+                    let what = oracle_failure_key(&small, property).map(|(_, w, _)| w).unwrap_or(what);
+                    rep.oracle_failure(
+                        &full,
+                        &small.encode(),
+                        &format!("{} {}", r2.outcome.render(), String::from_utf8_lossy(&r2.bytes)),
+                        &format!("only after the same formatter instance formatted the earlier entr{} of the case: {what}", if small.history.len() == 1 { "y" } else { "ies" }),
+                    );
+                }
+            }
+        }
+        hist = Some((hc.encode(), impl_canon(&hrun)));
+    }
+    Evaluated { request: c.request(), enc, canon: impl_canon(&run), hist }
 }
 
 /// one batch: evaluate, ask the model, compare
-fn run_batch(cases: &[Case], property: &str, driver: &Option<String>, rep: &mut Report, sample_every: usize) -> Vec<Case> {
-    let evs: Vec<Evaluated> = cases.iter().enumerate().map(|(i, c)| evaluate(c, property, rep, i % sample_every == 0)).collect();
+fn run_batch(
+    cases: &[Case],
+    property: &str,
+    driver: &Option<String>,
+    rep: &mut Report,
+    sample_every: usize,
+    insts: &mut Instances,
+) -> Vec<Case> {
+    let evs: Vec<Evaluated> = cases.iter().enumerate().map(|(i, c)| evaluate(c, property, rep, i % sample_every == 0, insts)).collect();
     let requests: Vec<String> = evs.iter().map(|e| e.request.clone()).collect();
     let mut disagreeing = vec![];
     match run_driver(driver, "emfspec", &requests) {
         Some(replies) => {
             for ((ev, reply), c) in evs.iter().zip(&replies).zip(cases) {
+                let comp = |canon: &ImplCanon| if reply.starts_with("err") || matches!(canon, ImplCanon::Other(_)) { "emfspec/validate" } else { "emfspec/records" };
                 if let Some(model) = compare(&ev.canon, reply) {
-                    let comp = if reply.starts_with("err") || matches!(ev.canon, ImplCanon::Other(_)) { "emfspec/validate" } else { "emfspec/records" };
-                    rep.disagreement(comp, &ev.enc, &render_impl_canon(&ev.canon), &model);
+                    rep.disagreement(comp(&ev.canon), &ev.enc, &render_impl_canon(&ev.canon), &model);
                     disagreeing.push(c.clone());
+                }
+                if let Some((henc, hcanon)) = &ev.hist {
+                    if let Some(model) = compare(hcanon, reply) {
+                        rep.disagreement(&format!("{}:after-history", comp(hcanon)), henc, &render_impl_canon(hcanon), &model);
+                        if let Some(hc) = Case::decode(henc) {
+                            disagreeing.push(hc);
+                        }
+                    }
                 }
             }
             rep.bump_by("model requests", requests.len() as u64);
@@ -1936,30 +2538,44 @@ fn main() {
         if cases.is_empty() {
             rep.notes.push("replay case did not decode".into());
         }
-        run_batch(&cases, property, &args.driver, &mut rep, 1);
+        run_batch(&cases, property, &args.driver, &mut rep, 1, &mut Instances::default());
         rep.write(&args);
         return;
     }
 
     let corpus: Vec<Case> = args.corpus_cases().iter().filter_map(|l| Case::decode(l)).collect();
     rep.bump_by("corpus cases", corpus.len() as u64);
-    let mut disagreeing = run_batch(&corpus, property, &args.driver, &mut rep, 1);
+    let mut disagreeing = run_batch(&corpus, property, &args.driver, &mut rep, 1, &mut Instances::default());
 
     let (shards, per_shard, batch) = if args.thorough() { (12u64, 40_000usize, 4_000usize) } else { (3u64, 4_000usize, 2_000usize) };
-    let forks: Vec<Rng> = (0..shards).map(|i| rng.fork(i)).collect();
+    // boundary streams (large entries): dealt round-robin to the shards
+    let mut brng = rng.fork(0xb0da);
+    let boundary = boundary_cases(&mut brng, property, args.thorough());
+    let mut dealt: Vec<Vec<Case>> = (0..shards).map(|_| vec![]).collect();
+    for (i, (c, label, size)) in boundary.into_iter().enumerate() {
+        rep.bump(&format!("boundary:{label}"));
+        rep.bump(&format!("boundary-size:{}", match size { 0..=9 => "1-9", 10..=63 => "10-63", 64..=255 => "64-255", _ => "256+" }));
+        dealt[i % shards as usize].push(c);
+    }
+    let forks: Vec<(Rng, Vec<Case>)> = (0..shards).map(|i| rng.fork(i)).zip(dealt).collect();
     let results: Vec<(Report, Vec<Case>)> = std::thread::scope(|s| {
         let handles: Vec<_> = forks
             .into_iter()
-            .map(|mut r| {
+            .map(|(mut r, mine)| {
                 let args = &args;
                 s.spawn(move || {
                     let mut rep = Report::new(args, "emfspec", "");
                     let mut dis = vec![];
+                    let mut insts = Instances::default();
+                    let mut runstate = RunState::default();
+                    for chunk in mine.chunks(100) {
+                        dis.extend(run_batch(chunk, property, &args.driver, &mut rep, 97, &mut insts));
+                    }
                     let mut done = 0;
                     while done < per_shard {
                         let n = batch.min(per_shard - done);
-                        let cases: Vec<Case> = (0..n).map(|_| gen_case(&mut r, property, &mut rep)).collect();
-                        dis.extend(run_batch(&cases, property, &args.driver, &mut rep, 1999));
+                        let cases: Vec<Case> = (0..n).map(|_| gen_case(&mut r, property, &mut rep, &mut runstate)).collect();
+                        dis.extend(run_batch(&cases, property, &args.driver, &mut rep, 1999, &mut insts));
                         done += n;
                     }
                     (rep, dis)
